@@ -282,6 +282,183 @@ Proof.
 Qed.
 
 (* ------------------------------------------------------------------------------------------ *)
+(* when the hypothesis on precisions holds: in terms of the rows, then of the document        *)
+(* ------------------------------------------------------------------------------------------ *)
+(* no prepared row has more decimals than the gross sum *)
+Definition rows_exp_le (N : nat) (tls : list tax_line) : Prop :=
+  Forall (fun r => (exp (tl_total r) <= N)%nat) tls.
+Definition rows_precision_ok (d : doc) (lcs : list line_calc) : Prop :=
+  rows_exp_le (exp (doc_gross d lcs)) (map (prepare_tl (d_c d)) (doc_rows d lcs)).
+
+Definition groups_exp_le (N : nat) (rts : list rate_total) : Prop :=
+  Forall (fun g => (exp (rt_base g) <= N)%nat) rts.
+Definition cats_exp_le (N : nat) (cts : list cat_total) : Prop :=
+  Forall (fun ct => groups_exp_le N (ct_rates ct)) cts.
+
+Lemma remove_included_all_exp_le N pit tls tls' : remove_included_all pit tls = Some tls' ->
+  rows_exp_le N tls -> rows_exp_le N tls'.
+Proof.
+  revert tls'. induction tls as [|tl r IH]; intros tls'; cbn [remove_included_all].
+  - intros E _. injection E as <-. constructor.
+  - destruct (remove_included pit tl) as [x|] eqn:E1; [|discriminate].
+    destruct (remove_included_all pit r) as [xs|]; [|discriminate].
+    intros E F. injection E as <-. inversion F as [|? ? F1 F2]; subst. constructor; [|apply IH; auto].
+    destruct (remove_included_spec pit tl x E1) as [_ K].
+    destruct (get_combo pit (tl_taxes tl)) as [cb|]; [|rewrite K; exact F1].
+    destruct pit; [rewrite K; exact F1|]. destruct (cb_pct cb); [|rewrite K; exact F1].
+    destruct K as [_ K]. rewrite K. exact F1.
+Qed.
+
+Lemma acc_rr_exp_le cr N s x : (exp s <= N)%nat -> (exp x <= N)%nat -> (exp (acc_rr cr s x) <= N)%nat.
+Proof. intros A B. destruct cr; [rewrite acc_rr_true_exp|rewrite acc_rr_exp_false]; lia. Qed.
+
+Lemma add_to_rates_exp_le cr c N tot cb rts : (c <= N)%nat -> (exp tot <= N)%nat ->
+  groups_exp_le N rts -> groups_exp_le N (add_to_rates cr c tot cb rts).
+Proof.
+  intros HC HT. induction rts as [|rt r IH]; intros F; cbn [add_to_rates].
+  - constructor; [|constructor]. cbn [rt_add_base new_rt rt_base]. apply acc_rr_exp_le; [exact HC|exact HT].
+  - inversion F as [|? ? F1 F2]; subst. destruct (rt_matches rt cb).
+    + constructor; [|exact F2]. cbn [rt_add_base rt_base]. apply acc_rr_exp_le; assumption.
+    + constructor; [exact F1|]. apply IH, F2.
+Qed.
+
+Lemma add_to_cats_exp_le cr c N tot cb cts : (c <= N)%nat -> (exp tot <= N)%nat ->
+  cats_exp_le N cts -> cats_exp_le N (add_to_cats cr c tot cb cts).
+Proof.
+  intros HC HT. induction cts as [|ct r IH]; intros F; cbn [add_to_cats].
+  - constructor; [|constructor]. cbn [ct_with_rates ct_rates]. apply add_to_rates_exp_le; auto. constructor.
+  - inversion F as [|? ? F1 F2]; subst. destruct (eqb_bytes _ _).
+    + constructor; [|exact F2]. cbn [ct_with_rates ct_rates]. apply add_to_rates_exp_le; auto.
+    + constructor; [exact F1|]. apply IH, F2.
+Qed.
+
+Lemma base_totals_exp_le cr c N tls : (c <= N)%nat -> rows_exp_le N tls -> cats_exp_le N (base_totals cr c tls).
+Proof.
+  intros HC. unfold base_totals.
+  assert (G : forall cts, rows_exp_le N tls -> cats_exp_le N cts -> cats_exp_le N (fold_left (add_tl cr c) tls cts)).
+  { induction tls as [|tl r IH]; intros cts F W; cbn [fold_left]; auto.
+    inversion F as [|? ? F1 F2]; subst. apply IH; [exact F2|].
+    unfold add_tl. revert cts W. induction (tl_taxes tl) as [|cb l IHl]; intros cts W; cbn [fold_left]; auto.
+    apply IHl. apply add_to_cats_exp_le; assumption. }
+  intros F. apply G; [exact F|constructor].
+Qed.
+
+Lemma ct_calc_amount_exp_le cr c N ct : (c <= N)%nat -> groups_exp_le N (ct_rates ct) ->
+  (exp (ct_amount (ct_calc cr c ct)) <= N)%nat.
+Proof.
+  intros HC F. unfold ct_calc. cbn [ct_amount].
+  assert (G : forall st, (exp (fst st) <= N)%nat ->
+            (exp (fst (fold_left (ct_step cr c) (map (rt_calc c) (ct_rates ct)) st)) <= N)%nat).
+  { induction F as [|g r F1 F2 IH]; intros st E; cbn [map fold_left]; [exact E|].
+    apply IH. unfold ct_step. rewrite rt_calc_pct. destruct (rt_pct g) as [p|] eqn:EP; [|exact E].
+    assert (A : (exp (rt_amount (rt_calc c g)) <= N)%nat).
+    { unfold rt_calc. rewrite EP. cbn [rt_amount pct_of mul exp]. exact F1. }
+    destruct (rt_sur (rt_calc c g)); cbn [fst]; apply acc_rr_exp_le; assumption. }
+  apply G. cbn [fst zero_of exp]. exact HC.
+Qed.
+
+Lemma rows_precision_ok_enough d lcs : rows_precision_ok d lcs -> surcharge_precision_ok d lcs.
+Proof.
+  unfold rows_precision_ok, surcharge_precision_ok, included_cat, doc_cats. intros R.
+  destruct (remove_included_all _ _) as [rows|] eqn:ERem; [|exact I].
+  pose proof (remove_included_all_exp_le _ _ _ _ ERem R) as R'.
+  pose proof (base_totals_exp_le (d_currency_rule d) (d_c d) _ rows (doc_gross_exp d lcs) R') as B.
+  induction B as [|ct r B1 _ IH]; cbn [map find_cat]; [exact I|].
+  destruct (eqb_bytes _ _); [|exact IH]. right.
+  apply ct_calc_amount_exp_le; [apply doc_gross_exp|exact B1].
+Qed.
+
+Lemma fold_acc_exp_in l : forall s x, In x l -> (exp x <= exp (fold_left acc l s))%nat.
+Proof.
+  induction l as [|y r IH]; intros s x I; cbn [fold_left]; [destruct I|].
+  destruct I as [<-|I]; [|apply IH, I].
+  pose proof (fold_acc_exp r (acc s y)) as H. rewrite acc_exp in H. lia.
+Qed.
+
+Lemma doc_gross_exp_eq d lcs : exp (doc_gross d lcs) = exp (doc_sum d lcs).
+Proof.
+  unfold doc_gross. cbv zeta.
+  destruct (sum_opt _ (map snd (doc_ddc d lcs (d_charges d)))); destruct (sum_opt _ (map snd (doc_ddc d lcs (d_discounts d))));
+    reflexivity.
+Qed.
+
+Lemma sub_all_exp xs : forall t, exp (sub_all t xs) = exp t.
+Proof. unfold sub_all. induction xs as [|x r IH]; intros t; cbn [fold_left]; [reflexivity|]. rewrite IH. reflexivity. Qed.
+Lemma add_all_exp xs : forall t, exp (add_all t xs) = exp t.
+Proof. unfold add_all. induction xs as [|x r IH]; intros t; cbn [fold_left]; [reflexivity|]. rewrite IH. reflexivity. Qed.
+
+(* under 'precise' a line total has at least two decimals more than the currency *)
+Lemma calc_line_precise_exp c cur rates l lc : calc_line false c cur rates l = Some lc ->
+  (c + line_precision_extra <= exp (lc_total lc))%nat.
+Proof.
+  unfold calc_line. destruct (calc_subs _ _ _ _ _) as [subs|]; [|discriminate].
+  destruct (item_price _ _ _ _) as [price|]; [|discriminate].
+  intros E. injection E as <-. cbn [lc_total]. rewrite add_all_exp, sub_all_exp.
+  unfold apply_rr. rewrite !rescale_up_exp. cbn [mul exp]. rewrite rescale_up_exp. lia.
+Qed.
+
+Lemma calc_lines_precise_exp c cur rates ls lcs : calc_lines false c cur rates ls = Some lcs ->
+  Forall (fun lc => (c + line_precision_extra <= exp (lc_total lc))%nat) lcs /\ length lcs = length ls.
+Proof.
+  revert lcs. induction ls as [|l r IH]; intros lcs; cbn [calc_lines].
+  - intros E. injection E as <-. split; [constructor|reflexivity].
+  - destruct (calc_line false c cur rates l) as [x|] eqn:E1; [|discriminate].
+    destruct (calc_lines false c cur rates r) as [xs|]; [|discriminate].
+    intros E. injection E as <-. destruct (IH xs eq_refl) as [A B]. split.
+    + constructor; [apply (calc_line_precise_exp _ _ _ _ _ E1)|exact A].
+    + cbn [length]. rewrite B. reflexivity.
+Qed.
+
+(* the rows: a line's total never has more decimals than the sum of the lines; what remains is
+   two decimals more than the currency (prepareLines) and the document discounts / charges *)
+Lemma rows_precision_ok_from_amounts d lcs :
+  (d_c d + tax_precision_extra <= exp (doc_gross d lcs))%nat ->
+  Forall (fun p => (exp (snd p) <= exp (doc_gross d lcs))%nat) (doc_ddc d lcs (d_discounts d)) ->
+  Forall (fun p => (exp (snd p) <= exp (doc_gross d lcs))%nat) (doc_ddc d lcs (d_charges d)) ->
+  rows_precision_ok d lcs.
+Proof.
+  intros H2 HD HC. unfold rows_precision_ok, rows_exp_le.
+  assert (P : forall tl, (exp (tl_total tl) <= exp (doc_gross d lcs))%nat ->
+                         (exp (tl_total (prepare_tl (d_c d) tl)) <= exp (doc_gross d lcs))%nat).
+  { intros tl E. unfold prepare_tl. destruct (tl_taxes tl); [exact E|]. cbn [tl_total]. rewrite rescale_up_exp. lia. }
+  apply Forall_forall. intros x I. apply in_map_iff in I. destruct I as (tl & <- & I). apply P.
+  unfold doc_rows, tax_lines in I. rewrite !in_app_iff in I. destruct I as [I|[I|I]].
+  - apply in_map_iff in I. destruct I as ([lc l] & <- & I). cbn [tl_total fst].
+    apply in_combine_l in I. rewrite doc_gross_exp_eq. unfold doc_sum. apply fold_acc_exp_in.
+    apply in_map. exact I.
+  - apply in_map_iff in I. destruct I as (p & <- & I). cbn [tl_total negate exp].
+    rewrite Forall_forall in HD. apply (HD p I).
+  - apply in_map_iff in I. destruct I as (p & <- & I). cbn [tl_total].
+    rewrite Forall_forall in HC. apply (HC p I).
+Qed.
+
+(* 'precise', at least one line: the gross sum has at least two decimals more than the currency *)
+Lemma precise_gross_exp d lcs : d_currency_rule d = false -> d_lines d <> [] ->
+  calc_lines (d_currency_rule d) (d_c d) (d_cur d) (d_rates d) (d_lines d) = Some lcs ->
+  (d_c d + tax_precision_extra <= exp (doc_gross d lcs))%nat.
+Proof.
+  intros R NE E. rewrite R in E. destruct (calc_lines_precise_exp _ _ _ _ _ E) as [F L].
+  destruct lcs as [|lc r]; [destruct (d_lines d); [congruence|discriminate]|].
+  inversion F as [|? ? F1 _]; subst. rewrite doc_gross_exp_eq. unfold doc_sum.
+  pose proof (fold_acc_exp_in (map lc_total (lc :: r)) (zero_of (d_c d)) (lc_total lc) (or_introl eq_refl)) as H.
+  unfold tax_precision_extra, line_precision_extra in *. lia.
+Qed.
+
+(* either rule: a document with at least one line whose document discounts and charges have no
+   more decimals than the gross sum *)
+Lemma surcharge_precision_ok_from_document d lcs :
+  d_lines d <> [] ->
+  calc_lines (d_currency_rule d) (d_c d) (d_cur d) (d_rates d) (d_lines d) = Some lcs ->
+  Forall (fun p => (exp (snd p) <= exp (doc_gross d lcs))%nat) (doc_ddc d lcs (d_discounts d)) ->
+  Forall (fun p => (exp (snd p) <= exp (doc_gross d lcs))%nat) (doc_ddc d lcs (d_charges d)) ->
+  surcharge_precision_ok d lcs.
+Proof.
+  intros NE E HD HC. destruct (d_currency_rule d) eqn:R; [apply currency_rule_precision_ok, R|].
+  apply rows_precision_ok_enough, rows_precision_ok_from_amounts; [|exact HD|exact HC].
+  apply precise_gross_exp; [exact R|exact NE|rewrite R; exact E].
+Qed.
+
+(* ------------------------------------------------------------------------------------------ *)
 (* the hypothesis on precisions is needed under 'precise'                                     *)
 (* ------------------------------------------------------------------------------------------ *)
 (* ES, 'precise': one line of 121.00 and a document charge of 0.023900 (six decimals), both at
